@@ -97,7 +97,7 @@ def gen_decl(rng):
     attrs = []
     names = rng.sample(['a', 'b', 'c', 'd'], rng.randint(1, 4))
     for nm in names:
-        kind = rng.choice(('local', 'local', 'local', 'ref_ga', 'ref_gb'))
+        kind = rng.choice(('local', 'local', 'local', 'ref_ga', 'ref_gb', 'ref_gd'))
         use = rng.choice(('optional', 'optional', 'required', 'prohibited'))
         typ = rng.choice(list(TYPES))
         a = {'name': nm, 'kind': kind, 'use': use, 'type': typ, 'form': rng.choice(('unqualified', 'unqualified', 'qualified')),
@@ -106,6 +106,10 @@ def gen_decl(rng):
             a.update(name='ga', type='int', form='qualified')
         if kind == 'ref_gb':
             a.update(name='gb', type='boolean', form='qualified')
+        if kind == 'ref_gd':
+            # the global declaration carries default="7": a use with no constraint of its own inherits it, a use with
+            # its own fixed / default replaces it
+            a.update(name='gd', type='int', form='qualified', inherited_default='7')
         if any(x['name'] == a['name'] and x['kind'] == a['kind'] for x in attrs):
             continue
         r = rng.random()
@@ -126,6 +130,8 @@ def attr_xml(a):
         s = f'<xs:attribute name="{a["name"]}" type="xs:{a["type"]}" form="{a["form"]}"'
     elif a['kind'] == 'ref_ga':
         s = '<xs:attribute ref="t:ga"'
+    elif a['kind'] == 'ref_gd':
+        s = '<xs:attribute ref="t:gd"'
     else:
         s = '<xs:attribute ref="i:gb"'
     if a['use'] != 'optional':
@@ -157,13 +163,14 @@ def schema_text(decl):
         content = body + wc
     return (f'<xs:schema xmlns:xs="{XS}" targetNamespace="{T}" xmlns:t="{T}" xmlns:i="{N1}" elementFormDefault="qualified">'
             f'<xs:import namespace="{N1}" schemaLocation="imp.xsd"/>'
-            f'<xs:attribute name="ga" type="xs:int"/><xs:attribute name="gx" type="xs:date"/>{groups}'
+            f'<xs:attribute name="ga" type="xs:int"/><xs:attribute name="gx" type="xs:date"/>'
+            f'<xs:attribute name="gd" type="xs:int" default="7"/>{groups}'
             f'<xs:element name="e"><xs:complexType>{content}</xs:complexType></xs:element></xs:schema>')
 
 
 IMP_XSD = (f'<xs:schema xmlns:xs="{XS}" targetNamespace="{N1}"><xs:attribute name="gb" type="xs:boolean"/>'
            f'<xs:attribute name="gy" type="xs:int"/></xs:schema>')
-GLOBALS = {(T, 'ga'): 'int', (T, 'gx'): 'date', (N1, 'gb'): 'boolean', (N1, 'gy'): 'int'}
+GLOBALS = {(T, 'ga'): 'int', (T, 'gx'): 'date', (T, 'gd'): 'int', (N1, 'gb'): 'boolean', (N1, 'gy'): 'int'}
 
 
 def declared_map(decl):
@@ -175,11 +182,15 @@ def declared_map(decl):
             key = (T if a['form'] == 'qualified' else '', a['name'])
         elif a['kind'] == 'ref_ga':
             key = (T, 'ga')
+        elif a['kind'] == 'ref_gd':
+            key = (T, 'gd')
         else:
             key = (N1, 'gb')
         if a['use'] == 'prohibited':
             prohibited.add(key)
         else:
+            if a.get('inherited_default') and a['fixed'] is None and a['default'] is None:
+                a = dict(a, default=a['inherited_default'])      # effective value constraint of the use
             m[key] = a
     return m, prohibited
 
@@ -290,11 +301,11 @@ def candidates(decl, rng):
         pool.append((key, vals))
         # the same local name in the other namespace
         other = ('' if key[0] else T, key[1])
-        if other not in m and other[1] not in ('ga', 'gb') and rng.random() < 0.5:
+        if other not in m and other[1] not in ('ga', 'gb', 'gd') and rng.random() < 0.5:
             pool.append((other, ['5']))
     for key in list(prohibited)[:2]:
         pool.append((key, ['5', 'x']))
-    extra = [((T, 'ga'), ['7', 'x']), ((N1, 'gb'), ['true', '2']), ((N1, 'gy'), ['3']), ((N2, 'zz'), ['v']),
+    extra = [((T, 'ga'), ['7', 'x']), ((T, 'gd'), ['7', 'x']), ((N1, 'gb'), ['true', '2']), ((N1, 'gy'), ['3']), ((N2, 'zz'), ['v']),
              ((T, 'undecl'), ['v']), (('', 'undecl'), ['v']),
              ((XSI, 'schemaLocation'), ['urn:x y.xsd']), ((XSI, 'foo'), ['1'])]
     rng.shuffle(extra)
@@ -305,8 +316,8 @@ def candidates(decl, rng):
 
 
 def plan(tier, seed):
-    n = 120 if tier == 'quick' else 3000
-    shards = 12 if tier == 'quick' else 48
+    n = 400 if tier == 'quick' else 3000
+    shards = 16 if tier == 'quick' else 48
     return [{'kind': 'decls', 'n': n // shards, 'dshard': s} for s in range(shards)]
 
 
@@ -346,7 +357,7 @@ def run_shard(spec, res):
                 doc = instance(aset)
                 want, tags = ref_valid(decl, aset)
                 case = {'schema': text, 'doc': doc}
-                nontrivial = bool(tags & {'wildcard', 'fixed', 'prohibited-present'}) or any(a['default'] for a in decl['attrs'])
+                nontrivial = bool(tags & {'wildcard', 'fixed', 'prohibited-present'}) or any(a['default'] or a.get('inherited_default') for a in decl['attrs'])
                 for version, schema in schemas.items():
                     if schema is None:
                         continue
@@ -387,6 +398,7 @@ def check_data(res, xmlschema, schema, decl, aset, doc, case, version, rng):
         res.violation('decode-raised-on-valid-document', dict(case, version=version), f'{type(e).__name__}: {str(e)[:200]}')
         return
     got = set()
+    values = {}
     nsmap = {'t': T, 'i': N1, 'u': N2, 'xsi': XSI}
     if isinstance(data, dict):
         for k in data:
@@ -400,6 +412,7 @@ def check_data(res, xmlschema, schema, decl, aset, doc, case, version, rng):
                 else:
                     ns, local = '', name
                 got.add((ns, local))
+                values[(ns, local)] = data[k]
     m, prohibited = declared_map(decl)
     want = expected_keys(decl, aset, use_defaults, fill_missing) - (prohibited if fill_missing else set())
     got_cmp = got - prohibited if fill_missing else got
@@ -428,6 +441,23 @@ def check_data(res, xmlschema, schema, decl, aset, doc, case, version, rng):
                       f'{version}: keys {sorted(got)} expected {sorted(want)} doc {doc[60:200]}')
     else:
         res.count('data:agree')
+    # an absent attribute filled from its value constraint must carry that constraint's value (the use's own one
+    # when the use and the referenced declaration both have one)
+    for key, a in m.items():
+        if key in aset or key not in values:
+            continue
+        lexical = a['fixed'] if a['fixed'] is not None else (a['default'] if use_defaults else None)
+        if lexical is None:
+            continue
+        res.count('data:filled_value_compared')
+        v = values[key]
+        same = str(v) == lexical if a['type'] in ('date', 'string') else \
+            (v == value_of(a['type'], lexical) if not isinstance(v, str) else value_of(a['type'], v) == value_of(a['type'], lexical))
+        if not same:
+            origin = 'fixed' if a['fixed'] is not None else 'default'
+            res.violation(f'filled-attribute-value:{origin}{"+inherited-default" if a.get("inherited_default") else ""}',
+                          dict(case, version=version, use_defaults=use_defaults, fill_missing=fill_missing),
+                          f'{version}: absent attribute {key} decoded as {v!r}, its {origin} is {lexical!r}; doc {doc[60:200]}')
 
 
 def finalize(res, tier):
